@@ -43,14 +43,17 @@ func (dm *defaultMkdirerPipeline) worker(ctx context.Context, wg *sync.WaitGroup
 		case <-ctx.Done():
 			return
 		case root, ok := <-roots:
+			verifPoint("mkdir.recv")
 			if !ok {
 				return
 			}
 			if dm.isExistRoot([]*Node{root}) {
+				verifPoint("mkdir.err")
 				errc <- ErrExistPath
 				return
 			}
 			if err := dm.makeDirectoriesAndFiles(root); err != nil {
+				verifPoint("mkdir.err")
 				errc <- err
 				return
 			}
